@@ -30,6 +30,7 @@ func (f wnFinding) Key() string {
 }
 
 type WireNil struct {
+	sn *stateNil
 	p            *Prog
 	root         *ssa.Function
 	reach        map[*ssa.Function]bool
@@ -117,6 +118,21 @@ func wpath(v ssa.Value, d int) string {
 	case *ssa.Extract:
 		return fmt.Sprintf("%s#%d", wpath(x.Tuple, d+1), x.Index)
 	case *ssa.Call:
+		// a getter that is nil by construction is a pure field read: its path is
+		// the receiver's path, so a guard on one call covers the next call
+		if curStateNil != nil {
+			if _, nilable := curStateNil.Nilable(x); nilable {
+				if rv := callRecv(x.Common()); rv != nil {
+					name := ""
+					if x.Call.IsInvoke() {
+						name = x.Call.Method.Name()
+					} else if f := x.Call.StaticCallee(); f != nil {
+						name = f.Name()
+					}
+					return wpath(rv, d+1) + "." + name + "()"
+				}
+			}
+		}
 		return fmt.Sprintf("c:%p", x)
 	case *ssa.MakeInterface:
 		return wpath(x.X, d+1)
@@ -411,6 +427,11 @@ func (w *WireNil) maybeNil(v ssa.Value) bool {
 	if w.isWireNilableLoad(v) {
 		return true
 	}
+	if c, ok := v.(*ssa.Call); ok && w.sn != nil {
+		if _, nilable := w.sn.Nilable(c); nilable {
+			return true
+		}
+	}
 	if p, ok := v.(*ssa.Parameter); ok {
 		return w.nilableParam[p]
 	}
@@ -424,9 +445,15 @@ func (w *WireNil) maybeNil(v ssa.Value) bool {
 	return false
 }
 
+// curStateNil is the getter table of the running analysis (wpath is a free function).
+var curStateNil *stateNil
+
 func RunWireNil(p *Prog, root *ssa.Function, cmdFunctionNonNil bool) *WireNil {
 	w := &WireNil{p: p, root: root, reach: map[*ssa.Function]bool{}, tainted: map[ssa.Value]bool{}, taintedField: map[string]bool{}, taintedParam: map[*ssa.Parameter]bool{}, taintedRet: map[*ssa.Function]bool{},
 		factsAt: map[ssa.Instruction]wfact{}, blockFacts: map[*ssa.BasicBlock]wfact{}, ensures: map[*ssa.Function]wfact{}, entryFacts: map[*ssa.Function]wfact{}, nilableParam: map[*ssa.Parameter]bool{}, CmdFunctionNonNil: cmdFunctionNonNil}
+	w.sn = newStateNil(p)
+	curStateNil = w.sn
+	defer func() { curStateNil = nil }()
 	// synchronous reachability
 	var walk func(f *ssa.Function)
 	walk = func(f *ssa.Function) {
